@@ -309,6 +309,50 @@ theorem get_stepBackward [Add α] [Sub α] [Mul α] [Div α] [NatCast α]
       if u = sh then lift2 (kind.domB S) (kind.backward S) (self.get (sh - k)) (orig.get (sh - k)) else self.get u := by
   unfold stepBackward; rw [Ser.get_setCell]
 
+/-- forward-loop invariant restricted to a region `P` that the steps respect: a step whose target lies in `P` reads in
+`P` and regenerates the target value; steps whose target lies outside `P` may do anything (they cannot write into `P`).
+This is what lets single chains `t, t+k, t+2k, …` be followed through a series with missing values elsewhere. -/
+theorem foldl_stepForward_inv_on [Add α] [Sub α] [Mul α] [Div α] [NatCast α]
+    (S : Sym α) (kind : CumKind) (change : Ser α) (tgt : Int → Option α) (P : Int → Prop)
+    (zs : List (Int × Int)) (self : Ser α)
+    (h0 : ∀ u, P u → self.get u = tgt u)
+    (hz : ∀ p ∈ zs, P p.1 → P p.2 ∧ lift2 (kind.domF S) (kind.forward S) (tgt p.2) (change.get p.1) = tgt p.1) :
+    ∀ u, P u → (zs.foldl (stepForward S kind change) self).get u = tgt u := by
+  induction zs generalizing self with
+  | nil => simpa using h0
+  | cons p zs ih =>
+    rw [List.foldl_cons]
+    apply ih
+    · intro u hu
+      rw [get_stepForward]
+      by_cases e : u = p.1
+      · obtain ⟨hp, he⟩ := hz p (by simp) (e ▸ hu)
+        rw [if_pos e, h0 p.2 hp, he, e]
+      · rw [if_neg e]; exact h0 u hu
+    · intro q hq
+      exact hz q (by simp [hq])
+
+theorem foldl_stepBackward_inv_on [Add α] [Sub α] [Mul α] [Div α] [NatCast α]
+    (S : Sym α) (kind : CumKind) (k : Int) (orig : Ser α) (tgt : Int → Option α) (P : Int → Prop)
+    (shs : List Int) (self : Ser α)
+    (h0 : ∀ u, P u → self.get u = tgt u)
+    (hz : ∀ sh ∈ shs, P sh → P (sh - k) ∧
+      lift2 (kind.domB S) (kind.backward S) (tgt (sh - k)) (orig.get (sh - k)) = tgt sh) :
+    ∀ u, P u → (shs.foldl (stepBackward S kind k orig) self).get u = tgt u := by
+  induction shs generalizing self with
+  | nil => simpa using h0
+  | cons sh shs ih =>
+    rw [List.foldl_cons]
+    apply ih
+    · intro u hu
+      rw [get_stepBackward]
+      by_cases e : u = sh
+      · obtain ⟨hp, he⟩ := hz sh (by simp) (e ▸ hu)
+        rw [if_pos e, h0 (sh - k) hp, he, e]
+      · rw [if_neg e]; exact h0 u hu
+    · intro q hq
+      exact hz q (by simp [hq])
+
 /-- forward loop over consecutive periods `a, a+1, …` (`n` of them) with lag `k < 0`: correct values on the `|k|`
 periods before `a` are enough — every step reads a value that is initial or was written by an earlier step -/
 theorem foldl_stepForward_consecutive [Add α] [Sub α] [Mul α] [Div α] [NatCast α]
